@@ -10,14 +10,15 @@
 EXTENDS MPText, Json
 
 CONSTANTS N,            \* maximal list length
-          Variants,     \* subset of {"rev", "two"}: how list entries are chosen
+          Variants,     \* subset of {"rev", "two", "big"}: how list entries are chosen
           WithFiles     \* TRUE: also render / parse the four embedding files
 
 VARIABLES list, ties, phase, w, r
 vars == <<list, ties, phase, w, r>>
 
-ListOf(n, v) == IF v = "rev" THEN [i \in 1 .. n |-> n - i + 1]     \* n..1
-                             ELSE [i \in 1 .. n |-> 7 + i]         \* 8, 9, 10, 11, ... (1 and 2 digits)
+ListOf(n, v) == CASE v = "rev" -> [i \in 1 .. n |-> n - i + 1]     \* n..1
+                  [] v = "two" -> [i \in 1 .. n |-> 7 + i]         \* 8, 9, 10, 11, ... (1 and 2 digits)
+                  [] v = "big" -> [i \in 1 .. n |-> 97 + i]        \* 98, 99, 100, 101, ... (2 and 3 digits)
 
 Init == \E n \in 0 .. N : \E v \in Variants : \E t \in [1 .. n -> {0, 1}] :
           /\ list = ListOf(n, v) /\ ties = t
